@@ -153,6 +153,7 @@ static void Apply(World& w, const json& c, const json& wit, size_t step, vh::Rep
     else if (k == "text") (void)s->schema.SetTermFor(bases.front(), "t" + std::to_string(step) + s->schema.GetText(bases.front()).term.Text().Raw());
     else if (k == "userTerm") s->schema.Emplace(CstType::term, UserTermFor(p));
   }
+  else if (o == "Lock") { if (auto* s = w.Src(p); s != nullptr) s->unwritable = true; }
   else if (o == "Save") { if (auto* s = w.Src(p); s != nullptr) s->TriggerSave(); }
   else if (o == "InitFor") {
     if (!ossRef.Contains(p) || ossRef.Ops()(p) == nullptr) return;
